@@ -198,10 +198,20 @@ func (c *Cron) set(j *Job) error {
 		return err
 	}
 
-	j.at = schedule.Next(time.Now().UTC()).Add(c.Jitter())
+	next := schedule.Next(time.Now().UTC())
+	if next.IsZero() {
+		// Say "0 0 30 2 *".  Filed under the zero time the job
+		// would be due at every poll.
+		return NoOccurrence
+	}
+	j.at = next.Add(c.Jitter())
 
 	return nil
 }
+
+// NoOccurrence is the error for a schedule that never (or never
+// again) occurs.
+var NoOccurrence = errors.New("the schedule has no (further) occurrence")
 
 func (s *Cron) Add(j *Job) error {
 	if err := j.init(); err != nil {
@@ -426,7 +436,13 @@ func (s *Cron) work(part string) func(tx *bolt.Tx) error {
 				job.Evict = true
 			}
 
-			if err = s.set(&job); err != nil {
+			if err = s.set(&job); err == NoOccurrence {
+				// That was the last occurrence: the job is
+				// done, like a one-shot job that has fired.
+				job.Evict = true
+				err = s.set(&job)
+			}
+			if err != nil {
 				return err
 			}
 
